@@ -106,15 +106,15 @@ def special_cases(tier):
     # K2: window 1, the reply to the first transmission is duplicated; the copy arrives when the sequence
     # number of command 0 has come round to command 65536 and that command is waiting for its own reply.
     wrap = {"n_tries": 2, "timeout": 10, "advance_seq": 0, "mood": "seq-wrap-duplicate", "idx": -1,
-            "policy": {"kind": "sim", "plan": {"0": {"lost": False, "replies": [[1, None], [65536, None]]}},
+            "policy": {"kind": "sim", "plan": {"0": {"lost": False, "replies": [[1, None], [65537, None]]}},
                        "exact": [], "max_selects": 3 * n},
-            "ops": [{"op": "burst", "window": 1, "cmds": [[i, 0] for i in range(n)]}]}
+            "ops": [{"op": "burst", "window": 1, "cmds": [], "cmds_range": [0, n, 0]}]}
     # skip rule: window 2, command 0 (long extra timeout, request lost) stays outstanding while 65 540 other
     # commands go round the counter: its number must be skipped, then it is retransmitted and answered.
     skip = {"n_tries": 2, "timeout": 10, "advance_seq": 3, "mood": "seq-wrap-skip", "idx": -2,
             "policy": {"kind": "sim", "plan": {"0": {"lost": True, "replies": []}}, "exact": [],
                        "max_selects": 3 * n},
-            "ops": [{"op": "burst", "window": 2, "cmds": [[0, 200000]] + [[i, 0] for i in range(1, n + 4)]}]}
+            "ops": [{"op": "burst", "window": 2, "cmds": [[0, 200000]], "cmds_range": [1, n + 3, 0]}]}
     return [wrap, skip]
 
 
@@ -158,7 +158,11 @@ def calls_of(c):
 
 
 def op_cmds(op):
-    return op["cmds"] if op["op"] == "burst" else [[op["id"], op["extra"]]]
+    """[[identity, extra timeout]] of a call; "cmds_range": [first, n, extra] appends n consecutive identities"""
+    if op["op"] != "burst":
+        return [[op["id"], op["extra"]]]
+    first, n, extra = op.get("cmds_range", [0, 0, 0])
+    return op["cmds"] + [[first + i, extra] for i in range(n)]
 
 
 def coq_events(events):
@@ -198,7 +202,7 @@ def coq_cmds(cmds):
     return "(expand_cmds %s)" % vlist(items)
 
 
-DIGEST_MOD = 2305843009213693951
+DIGEST_MOD = 2 ** 63
 TAIL = 24
 
 
@@ -225,7 +229,7 @@ def coq_calls(c, res):
         if oc is None or any(t[0] == "select" and not isinstance(t[1], int) for t in b["trace"]):
             return None, None, long
         if long:
-            obs.append("(%s, %d%%nat, %s, %s, 0%%nat)" % (zlit(digest(b["trace"])), len(b["trace"]),
+            obs.append("(%s, N.to_nat %d%%N, %s, %s, 0%%nat)" % (zlit(digest(b["trace"])), len(b["trace"]),
                                                         vlist(coq_output(t) for t in b["trace"][-TAIL:]), oc))
         else:
             obs.append("(%s, %s, 0%%nat)" % (vlist(coq_output(t) for t in b["trace"]), oc))
@@ -267,6 +271,7 @@ def oracle(c, res):
         unanswered = set()
         answered = set()              # commands for which an OK reply caused by one of their own transmissions arrived
         received = []                 # datagrams received so far in this call
+        received_set = set()
         called = {}                   # cmd -> [datagram]
         fatal_seen = None
         for pos, t in enumerate(tr):
@@ -302,6 +307,7 @@ def oracle(c, res):
             elif t[0] == "recv":
                 rc, seq, src = t[1:4]
                 received.append((rc, seq, src))
+                received_set.add((rc, seq, src))
                 if fatal_seen is not None:
                     pass
                 if rc == RC_OK:
@@ -321,7 +327,7 @@ def oracle(c, res):
                 if len(called[cid]) > 1:
                     fail("callback-twice", "callback of command %d invoked %d times" % (cid, len(called[cid])))
                 rc, seq, src = d
-                if d not in received:
+                if d not in received_set:
                     fail("callback-invented-reply", "callback of command %d given a datagram that was not received" % cid)
                 elif rc != RC_OK:
                     fail("callback-non-ok-reply", "callback of command %d given a reply with return code %#x" % (cid, rc))
@@ -454,7 +460,7 @@ def run(chk, args):
     if chk.model_ok:
         try:
             header = ("From Coq Require Import ZArith List. Import ListNotations. Open Scope Z_scope.\n"
-                      "Require Import Rig.Model.Base Rig.Model.SCP.\n")
+                      "Require Import Rig.Model.Base Rig.Model.SCP.\nUnset Printing Records.\n")
             cost = [len(res["bursts"][0]["trace"]) if long else len(e) // 40 for e, (c, res, k, long) in zip(exprs, idx)]
             order = sorted(range(len(exprs)), key=lambda i: -cost[i])
             nsh = max(1, min(40, len(exprs) // 40))
